@@ -136,7 +136,7 @@ def run(tier, v):
     cpath = os.path.join(d, "cases.ndjson")
     vlib.write_ndjson(cpath, cases)
     trace = os.path.join(d, "trace.ndjson")
-    nfuzz = 1500 if thorough else 60
+    nfuzz = 5000 if thorough else 60
     p = vlib.run_driver(b, ["malformed", "-cases", cpath, "-out", trace, "-repo", vlib.REPO, "-fuzz", str(nfuzz)],
                         timeout=3000 if thorough else 900)
     m = re.search(r"(\d+) jobs in (\d+) child processes", p.stderr)
